@@ -34,6 +34,7 @@ CONSTANTS
   Fams <- VFFams
   EmitMin = {EM}
   Bug = "{BUG}"
+  Lazy = {LAZY}
 '''
 CHECKS = '''INVARIANT VerdictAgree
 INVARIANT FreeAgree
@@ -61,7 +62,7 @@ def run_tlc(tag, fams, *, bare=False, bug='', emitmin=0, simulate=None, depth=No
     path = os.path.join(wd, 'MCExprParseX.tla')
     with open(path, 'w') as f:
         f.write('---- MODULE MCExprParseX ----\nEXTENDS MCExprParse\nVFFams == << {} >>\n====\n'.format(', '.join(fams)))
-    cfg = CFG.format(SPEC='BareSpec' if bare else 'Spec', EM=emitmin, BUG=bug) + ('' if bare else CHECKS) + 'CHECK_DEADLOCK FALSE\n'
+    cfg = CFG.format(SPEC='BareSpec' if bare else 'Spec', EM=emitmin, BUG=bug, LAZY='TRUE' if simulate else 'FALSE') + ('' if bare else CHECKS) + 'CHECK_DEADLOCK FALSE\n'
     kw = {}
     if simulate:
         kw = dict(simulate=dict(num=simulate), depth=depth, seed=seed)
